@@ -333,9 +333,10 @@ C13_Step ==
         /\ (~e.aerr /\ e.shape # "neither") => (~e.cerr /\ e.reseq)
   /\ (e.mode \in {"model", "real", "tool"} /\ e.op \in SlotOps /\ e.remote) => (e.cerr /\ ~e.toolran)
   /\ (e.mode \in {"model", "tool"} /\ e.op \in SlotOps /\ ~e.remote) =>
-        /\ e.toolran /\ e.argeq                     \* the tool was asked for this action and this slot
+        /\ e.argeq                                   \* whenever the tool ran it was asked for this action and this slot
+        /\ ~e.toolran => (e.aerr /\ e.cerr)         \* not running it is a refusal: an error that reaches the caller
         /\ (e.exit # 0) => e.cerr
-        /\ (e.exit = 0 /\ e.op = "listslots") => (~e.cerr /\ SlotsOK(e.lines, e.slots))
+        /\ (e.exit = 0 /\ e.op = "listslots" /\ e.toolran) => (~e.cerr /\ SlotsOK(e.lines, e.slots))
         /\ (e.exit = 0 /\ e.op # "listslots") => (e.reseq /\ (e.cerr = e.aerr))
   /\ (e.mode \in {"model", "real"}) => (e.reseq /\ e.steq)      \* same result and same agent state as the direct twin
 P_C13 == [][C13_Step]_rvars
